@@ -52,6 +52,10 @@ fn args_map(args: &[String]) -> (Vec<String>, BTreeMap<String, String>) {
 
 fn main() {
     real::install_panic_hook();
+    // the file-size-limit fault (RLIMIT_FSIZE) must surface as EFBIG, not as a fatal signal
+    unsafe {
+        let _ = libc::signal(libc::SIGXFSZ, libc::SIG_IGN);
+    }
     let args: Vec<String> = std::env::args().skip(1).collect();
     if args.is_empty() {
         eprintln!("usage: pocket-sim check|replay|gen|worker|minimize|selftest-determinism ...");
